@@ -1,6 +1,7 @@
 (* Property C18 - template caching is transparent and behaves as a bounded LRU.
-   Only statements here; proofs live in LRU/Proofs.v.  Model: LRU/Model.v. *)
-From DJC Require Import Lib.Base LRU.Model LRU.Proofs.
+   Only statements here; proofs live in LRU/Proofs.v (list-level model LRU/Model.v) and
+   LRU/HeapProofs.v (pointer-level model LRU/Heap.v: heap of nodes with prev/next, sentinels, dict). *)
+From DJC Require Import Lib.Base LRU.Model LRU.Proofs LRU.Heap LRU.HeapProofs.
 
 (* The cache never holds more than the configured number of entries (any history, any maxsize). *)
 Theorem size_le_cap : forall (V : Type) (c : Z) (ops : list (op V)),
@@ -79,3 +80,98 @@ Example evict_premises_satisfiable :
   amem 3%N (items s) = false /\ full s = true /\ disabled s = false /\
   map fst (items (step_t 3%N s (OSet 3%N 30%N))) = [3%N; 1%N].
 Proof. vm_compute. repeat split. Qed.
+
+(* ================= pointer-level model (LRU/Heap.v) =================
+   hinv s g : the representation invariant of the hand-rolled structure, g = ghost list of
+   (node id, (key, value)) from head.next to tail.prev - distinct objects, `next` from head walks exactly
+   these nodes and reaches tail, `prev` is the inverse of `next`, each key once, the dict has one binding
+   per key / as many bindings as nodes, dict[k] = the node that carries k.   hwf s := exists g, hinv s g. *)
+
+(* The constructor establishes the invariant and its abstraction is the empty list-level cache. *)
+Theorem heap_init_wf : forall (V : Type) (c : option Z),
+  hwf (@hinit V c) /\ habs (@hinit V c) = init c.
+Proof. exact @hwf_init_lemma. Qed.
+Print Assumptions heap_init_wf.
+
+(* REFINEMENT: from a well-formed pointer structure every API call (get / has / set / clear, transliterated
+   line by line incl. _remove and _add_to_front) raises nothing (no RuntimeError, no KeyError, no access
+   through a missing object), re-establishes the invariant, and commutes with the abstraction
+   `habs` (walk `next` from head): same output and same abstract state as `step` of LRU/Model.v. *)
+Theorem lru_refines : forall (V : Type) (s : hstate V) (o : op V),
+  hwf s ->
+  exists s' x, hstep s o = HOk (s', x) /\ hwf s' /\ step (habs s) o = (habs s', x).
+Proof. exact @lru_refines_lemma. Qed.
+Print Assumptions lru_refines.
+
+(* ... hence for every history from the constructor's state: the pointer-level run never fails, returns
+   exactly the outputs of the list-level run, and ends in a well-formed structure whose abstraction is the
+   list-level final state.  Every theorem above therefore also speaks about the pointer-level model. *)
+Theorem heap_run_refines : forall (V : Type) (c : option Z) (ops : list (op V)),
+  exists s, hrun (hinit c) ops = HOk (s, snd (run (init c) ops)) /\ hwf s /\ habs s = final (init c) ops.
+Proof. exact @hrun_init_lemma. Qed.
+Print Assumptions heap_run_refines.
+
+(* The `tail.prev is None` RuntimeError branch, the KeyError of `del self.cache[lru_node.key]` and any
+   access through a missing node are unreachable. *)
+Theorem heap_runtime_error_unreachable : forall (V : Type) (c : option Z) (ops : list (op V)) e,
+  hrun (hinit c) ops <> HErr e.
+Proof. exact @heap_no_error_lemma. Qed.
+Print Assumptions heap_runtime_error_unreachable.
+
+(* "dict + doubly linked list stay in sync after every prefix": after any history the backward walk is the
+   reverse of the forward walk, the listed objects and their keys are distinct, len(dict) = number of
+   listed nodes, and dict[k] = i exactly when i is on the list and carries key k. *)
+Theorem heap_dict_and_list_in_sync : forall (V : Type) (c : option Z) (ops : list (op V)) s outs,
+  hrun (hinit c) ops = HOk (s, outs) ->
+  walk_bwd s = rev (walk_fwd s) /\
+  NoDup (walk_fwd s) /\ NoDup (map fst (habs_items s)) /\
+  length (hdict s) = length (walk_fwd s) /\
+  (forall k i, alookup k (hdict s) = Some i <-> In i (walk_fwd s) /\ exists v, kv (hheap s) i = Some (k, v)).
+Proof. exact @heap_in_sync_lemma. Qed.
+Print Assumptions heap_dict_and_list_in_sync.
+
+(* Neither the dict nor the linked list ever holds more than maxsize entries ... *)
+Theorem heap_size_le_cap : forall (V : Type) (c : Z) (ops : list (op V)) s outs,
+  hrun (hinit (Some c)) ops = HOk (s, outs) ->
+  (Z.of_nat (length (hdict s)) <= Z.max 0 c)%Z /\ (Z.of_nat (length (walk_fwd s)) <= Z.max 0 c)%Z.
+Proof. exact @heap_size_le_cap_lemma. Qed.
+Print Assumptions heap_size_le_cap.
+
+(* ... and with maxsize <= 0 nothing is ever linked or indexed. *)
+Theorem heap_cap0_never_stores : forall (V : Type) (c : Z) (ops : list (op V)) s outs,
+  (c <= 0)%Z -> hrun (hinit (Some c)) ops = HOk (s, outs) -> hdict s = [] /\ walk_fwd s = [].
+Proof. exact @heap_cap0_lemma. Qed.
+Print Assumptions heap_cap0_never_stores.
+
+(* A `get` on the pointer structure succeeds and a hit returns what a plain dictionary holds. *)
+Theorem heap_get_returns_last_set_while_cached : forall (V : Type) (c : option Z) (ops : list (op V)) s outs k,
+  hrun (hinit c) ops = HOk (s, outs) ->
+  exists r s', hget k s = HOk (r, s') /\
+               forall v, r = Some v -> alookup k (fold_left dict_step ops []) = Some v.
+Proof. exact @heap_get_dict_lemma. Qed.
+Print Assumptions heap_get_returns_last_set_while_cached.
+
+(* LRU order on the pointer structure: the walk from head is the time-stamped list-level state with the
+   stamps erased; when a full cache takes a new key, `set` unlinks exactly the last node of that walk, whose
+   entry has the oldest last use, and links the new node first. *)
+Theorem heap_evicts_lru_first : forall (V : Type) (c : option Z) (ops : list (op V)) k v s outs,
+  hrun (hinit c) ops = HOk (s, outs) ->
+  let st := run_t 0%N (init c) ops in
+  amem k (items st) = false -> full st = true -> disabled st = false ->
+  forall d, exists rest s'',
+    items st = rest ++ [last (items st) d] /\
+    (forall k' v' t', In (k', (v', t')) (items st) -> (snd (snd (last (items st) d)) <= t')%N) /\
+    habs_items s = erase_items (items st) /\
+    hset k v s = HOk s'' /\ habs_items s'' = (k, v) :: erase_items rest.
+Proof. exact @heap_evicts_lru_lemma. Qed.
+Print Assumptions heap_evicts_lru_first.
+
+(* Non-vacuity for the pointer level: a reachable full structure with a miss; the eviction unlinks node 3
+   (key 2, the least recently used) and links the new node 4 first; the old node stays in the heap as garbage. *)
+Example heap_evict_premises_satisfiable :
+  exists s outs s'',
+    hrun (hinit (Some 2%Z)) [OSet 1%N 10%N; OSet 2%N 20%N; OGet 1%N] = HOk (s, outs) /\
+    walk_fwd s = [2%N; 3%N] /\ habs_items s = [(1%N, 10%N); (2%N, 20%N)] /\
+    hset 3%N 30%N s = HOk s'' /\ walk_fwd s'' = [4%N; 2%N] /\ walk_bwd s'' = [2%N; 4%N] /\
+    habs_items s'' = [(3%N, 30%N); (1%N, 10%N)] /\ length (hheap s'') = 5%nat.
+Proof. vm_compute. do 3 eexists. repeat split. Qed.
